@@ -161,6 +161,21 @@ class Judge:
     if case.get("drift") and res["phase"] in ("update", "scan"):
       self.stats["known"] += 1
       return self.ck.violation(f"x64_float32_params|dtype_drift|{opt}", what, replay)
+    c = case["cfg"]
+    msg = e.get("msg") or ""
+    # ---- defects that were found by this check and fixed in /repo: stable keys ----------
+    if opt == "ds" and c["fd"] and c["fd_metrics"] and not c["metrics"] and e.get("type") == "TypeError" \
+        and "pytree structure" in msg:
+      return self.ck.violation(f"ds|fd_metrics_without_training_metrics|cond_pytree_mismatch|{mode}", what, replay)
+    if opt == "ds" and mode == "shard" and c["reuse"] and "with_sharding_constraint" in msg:
+      return self.ck.violation(f"ds|shard|reuse_preconditioner|sharding_constraint_on_list|{job['exec']}",
+                               what, replay)
+    if opt in ("tf", "tfso") and case["tree"]["x64"] and c["so"] == "sketchy" and \
+        "_safe_svd" in (e.get("repo_frame") or ""):
+      return self.ck.violation(f"tf|x64|sketchy|_safe_svd_cond_dtype|{opt}", what, replay)
+    if opt == "ds" and e.get("type") == "IndexError" and case["layout"] != {"ty": "none"} and \
+        _all_stats_1x1(case["layout"]):
+      return self.ck.violation(f"ds|all_statistics_1x1|IndexError|{mode}", what, replay)
     fn = (e.get("repo_frame") or "").split(":")[-1] or "outside_repo"
     return self.report(f"{opt}|{mode}|internal:{e.get('type')}@{res['phase']}:{fn}", sig, what, replay)
 
@@ -205,6 +220,14 @@ class Judge:
       if case.get("drift") and cl["clause"] in ("state_layout_changed", "scan_carry", "updates_layout"):
         st["known"] += 1
         ck.violation(f"x64_float32_params|dtype_drift|{opt}", what, {"job": job, "clause": cl})
+        continue
+      if opt == "ds" and case["tree"]["x64"] and cl["clause"] == "sharded_declared" and \
+          cl.get("path") == ".stats.global_stats.exponents.d":
+        ck.violation("ds|shard|x64|exponents_dtype", what, {"job": job, "clause": cl})
+        continue
+      if opt == "ds" and cl["clause"] in ("state_layout_changed", "scan_carry") and \
+          cl.get("path", "").endswith(".training_metrics.fd"):
+        ck.violation(f"ds|fd_metrics|zero_stat_param|layout_change|{mode}", what, {"job": job, "clause": cl})
         continue
       self.report(f"{opt}|{mode}|{cl['clause']}:{cl.get('path', '')}", sig, what, {"job": job, "clause": cl})
     if clean:
@@ -301,8 +324,290 @@ def run(ck):
   ck.assume("the adafactor graft state of tearfree belongs to optax: checked for stability only")
 
 
+# ---------------------------------------------------------------------------
+# V: random cases -> traces -> TLC
+# ---------------------------------------------------------------------------
+GRAFTS = ["SGD", "ADAGRAD", "RMSPROP", "RMSPROP_NORMALIZED", "SQRT_N", "ADAGRAD_NORMALIZED", "NONE"]
+DIMS = [1, 2, 3, 4, 5, 6, 8]
+
+
+def random_tree(rs):
+  n = int(rs.randint(1, 4))
+  shapes = []
+  for _ in range(n):
+    rank = int(rs.choice([0, 1, 1, 2, 2, 2, 3, 4]))
+    shapes.append([int(rs.choice(DIMS)) for _ in range(rank)])
+  if int(np.prod([np.prod(s) if s else 1 for s in shapes])) > 4096:
+    shapes = shapes[:1]
+  return {"shapes": shapes, "dtype": "float32", "x64": False}
+
+
+def pick(rs, xs):
+  return xs[int(rs.randint(len(xs)))]
+
+
+def random_case(rs):
+  """A case drawn from the raw option product (dependent options repaired with prob. 3/4)."""
+  kind = pick(rs, ["ds", "ds", "ds", "tf", "tf", "sm3"])
+  run = pick(rs, [[1, "scan"], [2, "scan"], [3, "scan"], [2, "jit"], [3, "jit"], [1, "eager"], [2, "eager"]])
+  tree = random_tree(rs)
+  if kind == "sm3":
+    cfg = {"beta1_8": pick(rs, [0, 4, 7, 8]), "beta2_8": pick(rs, [4, 8]), "wd_8": pick(rs, [0, 1]),
+           "normalize": bool(rs.randint(2)), "sched": pick(rs, ["none", "lin16"])}
+  elif kind == "ds":
+    md = pick(rs, [["plain", 1], ["plain", 1], ["pmap", 1], ["pmap", 2], ["pmap", 3], ["shard", 1],
+                   ["shard", 2], ["shard", 3]])
+    cfg = {"graft": pick(rs, GRAFTS), "rank": pick(rs, [0, 0, 0, 1, 2, 3, -1, -2]),
+           "fd": bool(rs.randint(3) == 0), "avg": bool(rs.randint(3) == 0), "reuse": bool(rs.randint(2)),
+           "reset": bool(rs.randint(4) == 0), "ptype": pick(rs, ["ALL", "ALL", "INPUT", "OUTPUT"]),
+           "skip_rank_lt": pick(rs, [0, 1, 1, 1, 2, 3]), "skip_dim_gt": pick(rs, [2, 3, 5, 4096, 4096, 4096]),
+           "metrics": bool(rs.randint(4) > 0), "fd_metrics": bool(rs.randint(2)), "memred": bool(rs.randint(2)),
+           "bs": pick(rs, [1, 2, 3, 4, 5, 8, 8, 8]), "merge": bool(rs.randint(4) > 0),
+           "merge_bs": pick(rs, [2, 3, 4, 6, 4096]), "eigh": bool(rs.randint(2)),
+           "S": pick(rs, [1, 1, 2, 3]), "P": pick(rs, [1, 1, 2, 3]), "mode": md[0], "D": md[1],
+           "Start": pick(rs, [0, 1, 2, 5]), "beta2_8": pick(rs, [8, 8, 4, 7]), "beta1_8": pick(rs, [0, 4, 7]),
+           "nesterov": bool(rs.randint(2)), "mavg": bool(rs.randint(2)), "dlr": bool(rs.randint(2)),
+           "dwd": bool(rs.randint(2)), "wd_8": pick(rs, [0, 1]), "lobpcg": pick(rs, [0, 0, 0, 0, 0, 0, 1]),
+           "clip_8": pick(rs, [0, 0, 8]), "rel_eps": bool(rs.randint(2)), "exp_override": pick(rs, [0, 0, 2, 4]),
+           "sched": pick(rs, ["none", "none", "lin16"])}
+    if rs.randint(4) > 0:       # repair towards an accepted combination
+      if cfg["fd"]:
+        cfg["rank"] = abs(cfg["rank"]) or 1
+        cfg["reuse"] = True
+        cfg["P"] = cfg["S"]
+      else:
+        cfg["avg"] = cfg["reset"] = False
+  else:
+    so = pick(rs, ["shampoo", "sketchy"])
+    graft = pick(rs, ["NONE", "SGD", "RMSPROP", "ADAFACTOR"])
+    cfg = {"so": so, "add_ggt": bool(rs.randint(2)), "ekfac": bool(rs.randint(3) == 0),
+           "lin_tail": bool(rs.randint(4) == 0), "bs": pick(rs, [0, 1, 2, 3, 4, 5, 8, 1024]),
+           "merge_dims": pick(rs, [1, 2, 3, 4, 8, 1024]), "graft": graft,
+           "graft_decay_8": pick(rs, [0, 4, 6, 8]), "graft_eps_neg": bool(rs.randint(8) == 0),
+           "min_factor": pick(rs, [0, 2, 4, 128]), "clip_8": pick(rs, [4, 8, 16]),
+           "param_scale": bool(rs.randint(2)), "skip_rank1": bool(rs.randint(2)),
+           "skip_dim_gt": pick(rs, [2, 3, 5, 4096, 4096]), "sk_rank": pick(rs, [0, 1, 2, 3, 8]),
+           "mom_8": pick(rs, [0, 4, 7, 8, 12]), "ema": bool(rs.randint(2)), "nesterov": bool(rs.randint(2)),
+           "wd_8": pick(rs, [-1, 0, 0, 1]), "wd_after": bool(rs.randint(2)), "PF": pick(rs, [0, 1, 1, 2, 3]),
+           "SF": pick(rs, [0, 1, 1, 2, 3]), "decay_8": pick(rs, [0, 4, 8, 8, 12]), "Start": pick(rs, [0, 1, 2, 5]),
+           "sched": pick(rs, ["none", "lin16"])}
+    if rs.randint(4) > 0:
+      cfg["bs"] = max(cfg["bs"], 2)
+      cfg["merge_dims"] = max(cfg["merge_dims"], 2)
+      cfg["graft_decay_8"] = 6 if graft in ("RMSPROP", "ADAFACTOR") else 0
+      cfg["graft_eps_neg"] = False
+      cfg["min_factor"] = max(cfg["min_factor"], 2)
+      cfg["clip_8"] = max(cfg["clip_8"], 8)
+      cfg["sk_rank"] = max(cfg["sk_rank"], 1)
+      cfg["mom_8"] = min(cfg["mom_8"], 8)
+      cfg["wd_8"] = max(cfg["wd_8"], 0)
+      cfg["PF"] = max(cfg["PF"], 1)
+      cfg["SF"] = max(cfg["SF"], 1)
+      cfg["decay_8"] = min(cfg["decay_8"], 8)
+  cfg["T"], cfg["exec"] = run
+  return {"opt": kind, "cfg": cfg, "tree": tree}
+
+
+def zero_len_metrics(case):
+  """Python twin of Layout!DSZeroLenMetrics, only used to keep pmap rows with zero-length metric
+  arrays on one device (an over-approximation is harmless: it merely pins D to 1)."""
+  c = case["cfg"]
+  if case["opt"] != "ds" or c["mode"] != "pmap" or not c["metrics"]:
+    return False
+  for sh in case["tree"]["shapes"]:
+    if len(sh) < max(c["skip_rank_lt"], 1) or any(d > c["skip_dim_gt"] for d in sh):
+      return True
+  return False
+
+
+# node schema of the layout vocabulary: ty -> list of alternatives {field: kind};
+# kinds: R record, LR list of records, LI list of ints, I int, B bool, S string
+_E = {}
+SCHEMA = {
+    None: [{"s": "LI", "d": "S"}],
+    "nil": [_E], "MaskedNode": [_E], "EmptyState": [_E], "_GraftMask": [_E], "opaque": [_E], "none": [_E],
+    "QV": [{"q": "R", "dg": "R", "b": "R", "qd": "S", "ex": "B", "sh": "LI"}],
+    "TM": [{"n": "I", "d": "S", "fd": "B", "nl": "I"}],
+    "dict": [{"v": "LR"}], "tuple": [{"v": "LR"}],
+    "ShampooState": [{"count": "R", "stats": "R"}],
+    "SM3State": [{"count": "R", "stats": "R"}],
+    "ParameterStats": [{"diagonal_statistics": "R", "statistics": "LR", "preconditioners": "LR",
+                        "diagonal_momentum": "R", "momentum": "R", "avg_grad": "R", "training_metrics": "R"},
+                       {"diagonal_statistics": "LR", "diagonal_momentum": "R"}],
+    "ShardedShampooStats": [{"global_stats": "R", "local_stats": "R"}],
+    "GlobalShardedParameterStats": [{"statistics": "R", "preconditioners": "R", "exponents": "R"}],
+    "LocalShardedParameterStats": [{"diagonal_statistics": "R", "diagonal_momentum": "R", "momentum": "R",
+                                    "avg_grad": "R", "training_metrics": "R", "index_start": "I",
+                                    "sizes": "LI"}],
+    "GraftingState": [{"count": "R", "direction": "R", "norm": "R"}],
+    "_ShampooState": [{"count": "R", "blocks": "R"}],
+    "_SketchyState": [{"count": "R", "sketches": "R"}],
+    "_AxesBlocks": [{"stats": "LR", "roots": "LR"}],
+    "_TensorState": [{"axes": "LR"}],
+    "_AxisState": [{k: "R" for k in ("eigvecs", "eigvals", "inv_eigvals", "tail", "inv_tail", "ema_ggt",
+                                     "svd_result_u", "svd_result_s", "inv_prev_tail")}],
+    "RMSPropAccumulator": [{"acc": "R"}], "TraceState": [{"trace": "R"}],
+    "ScaleByScheduleState": [{"count": "R"}],
+}
+
+
+def schema_violation(x, path=""):
+  """None if x is built from the nodes of the layout vocabulary, else the offending path."""
+  if not isinstance(x, dict):
+    return path or "."
+  ty = x.get("ty")
+  if ty is not None and not isinstance(ty, str) or ty not in SCHEMA:
+    return f"{path}<{ty}>"
+  fields = {k: v for k, v in x.items() if k != "ty"}
+  for alt in SCHEMA[ty]:
+    if set(alt) != set(fields):
+      continue
+    bad = None
+    for k, kind in alt.items():
+      v = fields[k]
+      if kind == "R":
+        bad = schema_violation(v, f"{path}.{k}")
+      elif kind == "LR":
+        if not isinstance(v, list):
+          bad = f"{path}.{k}"
+        else:
+          for i, u in enumerate(v):
+            bad = bad or schema_violation(u, f"{path}.{k}[{i}]")
+      elif kind == "LI":
+        bad = None if isinstance(v, list) and all(type(u) is int for u in v) else f"{path}.{k}"
+      elif kind == "I":
+        bad = None if type(v) is int else f"{path}.{k}"
+      elif kind == "B":
+        bad = None if type(v) is bool else f"{path}.{k}"
+      elif kind == "S":
+        bad = None if isinstance(v, str) else f"{path}.{k}"
+      if bad:
+        break
+    if not bad:
+      return None
+    return bad
+  return f"{path}<{ty}>:fields={sorted(fields)}"
+
+
+def trace_of(case, res):
+  none = {"ty": "none"}
+  ev = []
+  if res["phase"] == "construct":
+    return [{"a": "Construct", "out": res["outcome"]}]
+  ev.append({"a": "Construct", "out": "ok"})
+  if res["phase"] in ("init", "sharded_fns"):
+    ev.append({"a": "InitState", "out": res["outcome"], "layout": none, "decl": True, "pspec": True})
+    return ev
+  names = [c["clause"] for c in res["clauses"]]
+  ev.append({"a": "InitState", "out": "ok", "layout": normalise_real_layout(case, res["layout"]),
+             "decl": "sharded_declared" not in names, "pspec": "sharded_pspec" not in names})
+  for t in range(res["nupd"]):
+    last = t == res["nupd"] - 1
+    ev.append({"a": "Update", "out": "ok",
+               "same": not (last and ("state_layout_changed" in names or "scan_carry" in names)),
+               "upd": not (last and "updates_layout" in names)})
+  if res["phase"] in ("update", "scan"):
+    ev.append({"a": "Update", "out": res["outcome"], "same": True, "upd": True})
+  return ev
+
+
+def judge_traces(ck, cases, jobs, results, label):
+  traces = [{"case": {"opt": c["opt"], "cfg": {k: v for k, v in c["cfg"].items() if k != "row"},
+                      "tree": c["tree"]},
+             "events": trace_of(c, r)} for c, r in zip(cases, results)]
+  j = Judge(ck, label)
+  for c, jb, t in zip(cases, jobs, traces):
+    for e in t["events"]:
+      bad = schema_violation(e["layout"]) if "layout" in e else None
+      if bad:
+        j.report(f"{c['opt']}|{mode_of(c)}|layout_schema:{norm_path(bad)}", signature(c),
+                 f"{label}: the initial state contains a node outside the layout vocabulary at {bad}: "
+                 f"{c['opt']} cfg={json.dumps(jb['cfg'], sort_keys=True)} tree={jb['tree']}",
+                 {"job": jb, "layout": e["layout"]})
+        e["layout"] = {"ty": "unschematic"}
+  verdicts = ck.validate("Layout_Trace", "Layout_Trace", traces)
+  st = {"accepted": 0, "allowed": 0, "rejected": 0}
+  for c, jb, r, t, v in zip(cases, jobs, results, traces, verdicts):
+    ck.count(1, key=["V", c["opt"], c["cfg"], c["tree"]])
+    opt, mode, sig = c["opt"], mode_of(c), signature(c)
+    if v["accepted"]:
+      st["accepted"] += 1
+      ck.traces_ok(1)
+      continue
+    if v["verdict"].startswith("allowed_"):
+      st["allowed"] += 1
+      st[v["verdict"]] = st.get(v["verdict"], 0) + 1
+      continue
+    st["rejected"] += 1
+    if any(e.get("layout") == {"ty": "unschematic"} for e in t["events"]):
+      continue                       # already reported by the schema gate
+    if v["verdict"].startswith("internal_error"):
+      full = dict(c, rejects=v["rejects"], lobpcg_small=v["lobpcg_small"], zero_stat=v["zero_stat"],
+                  drift=v["drift"], layout=r["layout"] or {"ty": "none"})
+      j.known_or_violation(full, jb, r)
+      continue
+    detail = "; ".join(f"{cl['clause']}: {cl['detail']}" for cl in r["clauses"])[:600]
+    j.report(f"{opt}|{mode}|{v['verdict']}", sig,
+             f"{label}: trace rejected at event {v['l']} ({v['verdict']}): {opt} "
+             f"cfg={json.dumps(jb['cfg'], sort_keys=True)} tree={jb['tree']}; {detail}",
+             {"trace": t, "verdict": v, "job": jb})
+  st["known"] = j.stats["known"]
+  return st, traces, verdicts
+
+
 def validate_random(ck):
-  pass
+  n = 48 if ck.quick else 1500
+  rs = np.random.RandomState(ck.seed + 70)
+  cases = [random_case(rs) for _ in range(n)]
+  for c in cases:
+    c["zero_len_metrics"] = zero_len_metrics(c)
+  jobs = [job_of(c, ck.seed * 100000 + 50000 + i) for i, c in enumerate(cases)]
+  chunk = max(1, min(24, (len(jobs) + core.NCPU - 1) // core.NCPU))
+  results = core.run_workers(WORKER, jobs, devices=DEVICES, chunk=chunk, work=ck.work)
+  st, traces, verdicts = judge_traces(ck, cases, jobs, results, "random case")
+  merge_stats(ck, "traces", st)
+  if st["accepted"] < n // 8:
+    raise core.MachineryError(f"vacuous trace validation: {st}")
+  k = next(i for i, v in enumerate(verdicts) if v["accepted"] and len(traces[i]["events"]) >= 3)
+  ck.sample({"recorded_trace": {"case": traces[k]["case"],
+                                "events": [dict(e, layout="...") if "layout" in e else e
+                                           for e in traces[k]["events"]]}})
+  # ---- binding self-tests (V) -----------------------------------------------------
+  t1 = copy.deepcopy(traces[k]); _corrupt_first_leaf(t1["events"][1]["layout"])
+  t2 = copy.deepcopy(traces[k]); t2["events"][-1]["same"] = False
+  t3 = copy.deepcopy(traces[k]); t3["events"][-1]["out"] = "internal"
+  t4 = copy.deepcopy(traces[k]); t4["events"][-1]["upd"] = False
+  sub = core.Check(ck.pid, ck.level, ck.tier, ck.seed); sub.work = ck.work
+  vs = sub.validate("Layout_Trace", "Layout_Trace", [t1, t2, t3, t4])
+  ck.selftest("V: a recorded initial layout with one wrong leaf shape is rejected",
+              vs[0]["verdict"] == "initial_layout_differs_from_specified_layout")
+  ck.selftest("V: an update that changes the state layout is rejected",
+              vs[1]["verdict"] == "state_layout_changed_by_update")
+  ck.selftest("V: an internal error during update is rejected", vs[2]["verdict"] == "internal_error_in_update")
+  ck.selftest("V: updates without the parameters' layout are rejected",
+              vs[3]["verdict"] == "updates_do_not_have_the_parameters_layout")
+
+
+def _all_stats_1x1(layout):
+  """True iff the predicted layout has statistics and all of them are 1x1."""
+  found = []
+
+  def walk(x):
+    if isinstance(x, dict):
+      for k, v in x.items():
+        if k == "statistics" and isinstance(v, list):
+          for m in v:
+            s = m.get("s") if "s" in m else m.get("sh")
+            found.append(list(s))
+        elif k == "sizes" and isinstance(v, list):
+          found.extend([[d, d] for d in v])
+        else:
+          walk(v)
+    elif isinstance(x, list):
+      for v in x:
+        walk(v)
+  walk(layout)
+  return bool(found) and all(s == [1, 1] for s in found)
 
 
 def _corrupt_first_leaf(x):
